@@ -17,19 +17,19 @@ import (
 
 // lcEnv is one real frps plus a set of scripted clients.
 type lcEnv struct {
-	w        *World
-	token    string
-	scfg     map[string]any
-	frps     *Frps
-	opts     PeerOpts
-	clients  []*lcClient
-	nextIP   int
-	userIP   int
-	allow    map[int]bool
-	httpPort int
-	muxPort  int
+	w         *World
+	token     string
+	scfg      map[string]any
+	frps      *Frps
+	opts      PeerOpts
+	clients   []*lcClient
+	nextIP    int
+	userIP    int
+	allow     map[int]bool
+	httpPort  int
+	muxPort   int
 	httpsPort int
-	uct      time.Duration // userConnTimeout
+	uct       time.Duration // userConnTimeout
 }
 
 type httpSeen struct {
@@ -48,22 +48,22 @@ type startRec struct {
 // lcClient is a scripted client that can service work-connection requests.
 type lcClient struct {
 	*Peer
-	env      *lcEnv
-	user     string
-	pool     int
-	WorkMode int // 0 answer ReqWorkConn with a good conn; 1 never; 2 late; 3 offer then close (dead)
-	LateBy   time.Duration
-	ptypes   map[string]string // proxy name -> type
-	smu      sync.Mutex
-	Starts   []startRec
-	Offered  []net.Conn // every work conn this client opened
-	offClosed map[net.Conn]bool
-	ReqSeen  []time.Duration
-	natSids  int
-	NatSidList []string // session ids handed to this client's xtcp proxies
-	HTTPSeen []httpSeen // requests the http responder of this client saw
-	SilentUnknown bool // work connections for proxies this client did not record are drained silently
-	WorkFrames []RecvMsg // first frame received on each work connection
+	env           *lcEnv
+	user          string
+	pool          int
+	WorkMode      int // 0 answer ReqWorkConn with a good conn; 1 never; 2 late; 3 offer then close (dead)
+	LateBy        time.Duration
+	ptypes        map[string]string // proxy name -> type
+	smu           sync.Mutex
+	Starts        []startRec
+	Offered       []net.Conn // every work conn this client opened
+	offClosed     map[net.Conn]bool
+	ReqSeen       []time.Duration
+	natSids       int
+	NatSidList    []string   // session ids handed to this client's xtcp proxies
+	HTTPSeen      []httpSeen // requests the http responder of this client saw
+	SilentUnknown bool       // work connections for proxies this client did not record are drained silently
+	WorkFrames    []RecvMsg  // first frame received on each work connection
 }
 
 const (
